@@ -78,6 +78,21 @@ Theorem C03_dual_counts : forall S w tolS shift pts C L vt,
 Proof. exact dual_counts. Qed.
 Print Assumptions C03_dual_counts.
 
+(* the (0,1] cell convention: [cell_of n m] is the integer k with k < n/m <= k+1 *)
+Theorem C03_cell_of_spec : forall n m k : Z, 0 < m -> (cell_of n m = k <-> k * m < n <= (k + 1) * m).
+Proof. exact cell_of_spec. Qed.
+Print Assumptions C03_cell_of_spec.
+
+(* clause "crossing flag equal to the cell offset between them": the reference point of the neighbouring
+   triangle, translated by the edge's crossing (cx,cy) (side_shared in C03_check_dual_sound), lies in the
+   cell (cx,cy), while the vertex's own reference point lies in the cell (0,0) *)
+Theorem C03_crossing_is_cell_offset : forall S (r : pt * Z) (cx cy : Z),
+  0 < S -> in_cell_P S r ->
+  cell_of (fst (fst r) + cx * (snd r * S)) (snd r * S) = cx /\
+  cell_of (snd (fst r) + cy * (snd r * S)) (snd r * S) = cy.
+Proof. exact crossing_is_cell_offset. Qed.
+Print Assumptions C03_crossing_is_cell_offset.
+
 (* ---- non-vacuity: koala's actual output for 4 seeds on the 1/64 grid (float64 positions as exact
    dyadics), plain and shifted: both checkers accept *)
 Definition ex_plain_S : Z := 36028797018963968.
